@@ -19,6 +19,7 @@ def runStr : RunRes → String
   | .steps => "steps"
   | .stuck => "stuck"
   | .merge => "merge"
+  | .badPick => "badPick"
 
 /-- case: the build case of C20 plus, per node op, "dyn" (dynamic type the lambda returns),
     per branch op "pick" (end node the condition returns), and "runs": the dynamic types of
